@@ -43,7 +43,13 @@ def run(prop, tier, seed, scratch, replay=None):
     bfs = vlib.run_tlc(scratch, "Spend.tla", cfg, out_traces=traces, tag="bfs",
                        timeout=3400 if tier == "thorough" else 600)
     vlib.require_tlc_ok(bfs, "exhaustive exploration")
-    cov = vlib.op_histogram(traces, ["Receive", "Mine", "Lock", "Unlock", "Send", "SendExplicit", "SendDup", "FundOwn", "DryRun", "Restart"], cfg)
+    cfgtext = open(os.path.join(vlib.SPEC, cfg)).read()
+    required = [x for x in ("Receive", "Mine", "Lock", "Send", "SendExplicit", "FundOwn", "DryRun", "Restart", "RestartRej") if '"%s"' % x in cfgtext]
+    if '"SendExplicit"' in cfgtext:
+        required.append("SendDup")
+    if '"Lock"' in cfgtext:
+        required.append("Unlock")
+    cov = vlib.op_histogram(traces, required, cfg)
     simtr = scratch.path("sim.ndjson")
     sim = vlib.run_tlc(scratch, "Spend.tla", "MC_Spend_sim.cfg", simulate=NSIM[tier], depth=29, seed=seed,
                        out_traces=simtr, tag="sim", timeout=1800)
